@@ -21,6 +21,12 @@ impl InterfaceInner {
             return None;
         }
 
+        // Per RFC 1122 §4.2.3.10 a segment addressed to a broadcast or multicast address
+        // is silently discarded: it must neither reach a socket nor be answered with a RST.
+        if dst_addr.is_multicast() || self.is_broadcast(&dst_addr) {
+            return None;
+        }
+
         let tcp_packet = check!(TcpPacket::new_checked(ip_payload));
         let tcp_repr = check!(TcpRepr::parse(
             &tcp_packet,
